@@ -13,6 +13,7 @@ Expr terms over exact rationals; proved over R in Props/C17.v).  The driver
     priors on the constrained value and checks sample_from_prior read-back."""
 import json
 import math
+import os
 import random
 
 import mpmath
@@ -29,6 +30,7 @@ LEVEL_NOTE = ("theorems are over Coq reals about the Gallina/Expr model; float64
 IMPORTS = ("From Coq Require Import List ZArith QArith Qcanon.\n"
            "From GPV Require Import Base.LinAlg Base.Exec Base.Expr Models.C17_constraints.")
 RUN_DEF = "Definition run := run_c17."
+TAGSFX = os.environ.get("VERIF_TAG", "")    # development aid: keeps the scratch directories of concurrent runs apart
 torch.set_default_dtype(torch.float64)
 mpmath.mp.dps = 40
 k_, L_, M_ = gpytorch.kernels, gpytorch.likelihoods, gpytorch.means
@@ -113,7 +115,7 @@ def part_transforms(out, rng, tier):
             terms.append("(KTransformE (%s, [%s]))" % (cons_lit(l, u), "; ".join(efloat(r) for r in grid)))
             terms.append("(KInverse (%s, %s))" % (cons_lit(l, u), C.qc_vec(vals)))
             meta.append((name, c, ei, l, u, vals))
-    res = C.coq_run_cases("C17_tr", IMPORTS, RUN_DEF, terms, shard=2)
+    res = C.coq_run_cases("C17_tr" + TAGSFX, IMPORTS, RUN_DEF, terms, shard=2)
     for mi, (name, c, ei, l, u, vals) in enumerate(meta):
         nel = len(bounds_elems(c))
         scale = 1.0 + sum(abs(b) for b in (l, u) if abs(b) != INF)
@@ -388,6 +390,13 @@ def part_modules(out, rng, tier):
                 except Exception as e:
                     out.fail("history:%s:exception" % key, "history raised %s: %s" % (type(e).__name__, str(e)[:200]), desc)
                     continue
+                bad = [i for i, t in enumerate(tr) if not (math.isfinite(t[1]) and math.isfinite(t[4])
+                                                           and (t[3] is None or math.isfinite(t[3])))]
+                if bad:     # a NaN/inf parameter cannot be handed to the model: report it here
+                    out.case(dict(module=mname, param=pn, ops=[o[0] for o in ops]), len(ops) >= 2, label="history")
+                    out.fail("history:%s:out-of-bounds" % key, "after op %d the parameter (raw %r) reads %r: outside its bounds / "
+                             "non-finite" % (bad[0], tr[bad[0]][4], tr[bad[0]][1]), desc, impl=tr[bad[0]][1])
+                    continue
                 cops = []
                 for o, t in zip(ops, tr):
                     if o[0] == "set":
@@ -400,7 +409,7 @@ def part_modules(out, rng, tier):
                         cops.append("Step %s" % econst(t[3] if t[3] is not None else 0.0))
                 terms.append("(KHistory (%s, %s, [%s]))" % (cons_lit(l, u), C.qc_lit(raw0), "; ".join(cops)))
                 plan.append((key, desc, tr, l, u))
-    res = C.coq_run_cases("C17_hist", IMPORTS, RUN_DEF, terms, shard=max(8, (len(terms) + 15) // 16))
+    res = C.coq_run_cases("C17_hist" + TAGSFX, IMPORTS, RUN_DEF, terms, shard=max(8, (len(terms) + 15) // 16))
     for (key, desc, tr, l, u), r in zip(plan, res):
         rd = C.Reader(r)
         scale = 1.0 + sum(abs(b) for b in (l, u) if abs(b) != INF)
@@ -453,7 +462,7 @@ def part_priors(out, rng, tier):
         xs = [float(x) for x in xs]
         terms.append("(KPrior (%s, %s))" % (lit, C.qc_vec(xs)))
         rows.append((lit, prior, support, xs))
-    res = C.coq_run_cases("C17_pr", IMPORTS, RUN_DEF, terms, shard=4)
+    res = C.coq_run_cases("C17_pr" + TAGSFX, IMPORTS, RUN_DEF, terms, shard=4)
     normalised = set()
     for (lit, prior, support, xs), r in zip(rows, res):
         cls = type(prior).__name__
@@ -564,7 +573,7 @@ def part_prior_modules(out, rng, tier):
             vals = val.reshape(-1).tolist()
             terms.append("(KPrior (%s, %s))" % (prior_lit(prior), C.qc_vec(vals)))
             plan.append((key, desc, vals, lp.tolist(), owner, local))
-    res = C.coq_run_cases("C17_prm", IMPORTS, RUN_DEF, terms, shard=4)
+    res = C.coq_run_cases("C17_prm" + TAGSFX, IMPORTS, RUN_DEF, terms, shard=4)
     for (key, desc, vals, lp, owner, local), r in zip(plan, res):
         rd = C.Reader(r)
         out.case(dict(desc, check="density-of-constrained-value"), True, label="prior-on-constrained-value")
